@@ -68,10 +68,18 @@ func verif_WriteMsg(c io.Writer, m any) {
 // handed to no handler; every message that did decode is handed to the handler
 // registered for its type, or else to the default handler.
 //
+//verif:contract ~/pkg/msg.NewDispatcher
+//verif:props C17 C16
+func verif_NewDispatcher(rw io.ReadWriter) {
+	d := NewDispatcher(rw)
+	verif.Ensures(d != nil && d.doneCh != nil && !verif.Closed(d.doneCh) && d.sendCh != nil && d.msgHandlers != nil, "constructed_open")
+	verif.Ensures(verif.Same(d.rw, rw) && d.defaultHandler == nil && len(d.msgHandlers) == 0, "reads_the_given_stream_no_handlers_yet")
+}
+
 //verif:contract (*~/pkg/msg.Dispatcher).readLoop
 //verif:props C17 C16
 func verif_readLoop(d *Dispatcher) {
-	verif.Requires(!verif.Closed(d.doneCh), "session_open")
+	verif.Requires(d.doneCh != nil && !verif.Closed(d.doneCh), "constructed_and_session_open")
 	verif.ResetEvents()
 	d.readLoop()
 	verif.Ensures(verif.Closed(d.doneCh), "returns_only_with_done_closed")
@@ -79,7 +87,7 @@ func verif_readLoop(d *Dispatcher) {
 }
 
 //verif:loop (*~/pkg/msg.Dispatcher).readLoop 1 inv=verifReadLoopInv args=d
-func verifReadLoopInv(d *Dispatcher) bool { return !verif.Closed(d.doneCh) }
+func verifReadLoopInv(d *Dispatcher) bool { return d.doneCh != nil && !verif.Closed(d.doneCh) }
 
 //verif:loopbody (*~/pkg/msg.Dispatcher).readLoop 1 check=verifReadLoopIter args=d
 func verifReadLoopIter(d *Dispatcher) bool {
